@@ -371,11 +371,24 @@ def check_assemble(case, rec):
     sig = dict(elemType=et, dof_n=n, kind=case["kind"])
     txt = cf.describe_form(form, bil)
     mag = float(case.get("mag", 1.0))
-    rec.label(f"mag:{mag:g}")
+    cplx = case.get("cmag") is not None
+    if cplx:
+        # a complex-valued form (a complex coefficient in front of the real form): the element arrays and the assembled matrix
+        # are complex, linear in the coefficient
+        mag = complex(case["cmag"][0], case["cmag"][1])
+        rec.label("mag:complex")
+    else:
+        rec.label(f"mag:{mag:g}")
+    num = complex if cplx else float
     if bil:
         f0 = cf.compile_bilinear(form, d)
         F = BiLinearForm(f0 if mag == 1.0 else (lambda u, v: mag * f0(u, v)))
-        A_e = np.asarray(F.Integrate_e(field), float)
+        A_e = np.asarray(F.Integrate_e(field), num)
+        if cplx:
+            A_1 = np.asarray(BiLinearForm(f0).Integrate_e(field), float)
+            rec.close(A_e - mag * A_1, float(np.abs(A_1).max()) * abs(mag) + 1e-300, TOL_ID, "complex_form_linear",
+                      f"{et} dof_n={n} form ({mag}) x {txt}: Integrate_e is not ({mag}) x the element array of the real form "
+                      f"(imaginary part max {np.abs(A_e.imag).max():.3e})", **sig)
         A = F.Assemble(field)
         rec.require(tuple(A.shape) == (Ndof, Ndof), "shape", f"{et}: Assemble returned {A.shape}, expected {(Ndof, Ndof)}", **sig)
         ref = orc.scatter_matrix(Ndof, connect, n, A_e)
@@ -387,7 +400,11 @@ def check_assemble(case, rec):
     else:
         l0 = cf.compile_linear(form, d)
         L = LinearForm(l0 if mag == 1.0 else (lambda v: mag * l0(v)))
-        F_e = np.asarray(L.Integrate_e(field), float)
+        F_e = np.asarray(L.Integrate_e(field), num)
+        if cplx:
+            F_1 = np.asarray(LinearForm(l0).Integrate_e(field), float)
+            rec.close(F_e - mag * F_1, float(np.abs(F_1).max()) * abs(mag) + 1e-300, TOL_ID, "complex_form_linear",
+                      f"{et} dof_n={n} form ({mag}) x {txt}: LinearForm.Integrate_e is not ({mag}) x the element array of the real form", **sig)
         Fv = L.Assemble(field)
         rec.require(tuple(Fv.shape) == (Ndof, 1), "shape", f"{et}: Assemble returned {Fv.shape}, expected {(Ndof, 1)}", **sig)
         ref = orc.scatter_vector(Ndof, connect, n, F_e)
@@ -402,6 +419,7 @@ def assemble_cases(draw):
     case = draw(form_cases(avoid_known=True))
     # magnitude of the form (units, tiny domains or conductivities): the assembly is linear in it
     case["mag"] = draw(st.sampled_from([1.0, 1.0, 1e-9, 1e-13, 1e9]))
+    case["cmag"] = draw(st.sampled_from([None, None, None, [2.0, 3.0], [0.0, -1.5]]))
     return case
 
 
